@@ -8,7 +8,8 @@ From Coq Require Import List ZArith Arith Sorted Lia.
 From Mamba Require Import Invariants.Graph Invariants.DistSpec Invariants.DistRef Invariants.DistRefProofs
   Invariants.DistModel Invariants.DistModelProofs Invariants.CycleRefProofs
   Invariants.ConnModel Invariants.ConnProofs Invariants.BlockRefProofs
-  Invariants.GirthModel Invariants.GirthProofs Invariants.DistRelabel.
+  Invariants.GirthModel Invariants.GirthProofs Invariants.DistRelabel
+  Invariants.CycleCount Invariants.CycleIPModel Invariants.CycleIPProofs.
 Import ListNotations.
 
 (* Distance: the reference returns d exactly when there is a walk of length d and no shorter
@@ -154,6 +155,18 @@ Theorem C10_induced_cycles_ref : forall g L, wf g ->
 Proof. intros g L H. split; [apply induced_cycle_seqs_NoDup | intro p; apply induced_cycle_seqs_spec; exact H]. Qed.
 Print Assumptions C10_induced_cycles_ref.
 
+(* NumberOfInducedPaths, the Go function (model: per connected component the view
+   InducedSubgraph(g, component) with its own numbering, per start vertex a depth-first search
+   with an explicit stack of (path, length, bannedNeighbours), counts halved, r[0] = n, the bound
+   normalised as in the code): for every simple graph and every bound (negative, 0, beyond n-1
+   included) it never panics or runs out of fuel and returns the reference vector: entry L is
+   the number of induced-path vertex sequences with L edges halved for 1 <= L <= the effective
+   bound, n at index 0, and 0 above the bound. *)
+Theorem C10_induced_paths_model : forall g k, wf g ->
+  number_of_induced_paths_go g k = Done (ipaths_bounded_ref g k).
+Proof. exact number_of_induced_paths_go_correct. Qed.
+Print Assumptions C10_induced_paths_model.
+
 (* Girth (reference): Some L exactly when there is a cycle with L vertices and none shorter;
    None (-1) exactly when the graph has no cycle. *)
 Theorem C10_girth_ref : forall g, wf g ->
@@ -218,6 +231,14 @@ Example C10_nonvacuous_cycles :
   girth_ref ex_graph = Some 5 /\ cycles_ref ex_conn = [0; 0; 0; 0; 0; 1; 0] /\
   icycles_ref ex_conn = [0; 0; 0; 0; 0; 1; 0] /\ ipaths_ref ex_conn = [6; 6; 7; 7; 2; 0] /\
   length (cycle_seqs ex_conn 5) = 10 /\ girth_ref (of_edges 4 [(0,1); (1,2); (2,3)]) = None.
+Proof. vm_compute. repeat split. Qed.
+
+Example C10_nonvacuous_induced_paths :
+  number_of_induced_paths_go ex_conn (-1) = Done [6; 6; 7; 7; 2; 0] /\
+  number_of_induced_paths_go ex_conn 2 = Done [6; 6; 7; 0; 0; 0] /\
+  number_of_induced_paths_go ex_conn 0 = Done [6; 0; 0; 0; 0; 0] /\
+  number_of_induced_paths_go ex_graph 9 = Done [8; 7; 7; 7; 2; 0; 0; 0] /\
+  number_of_induced_paths_go (of_edges 1 []) 0 = Done [1].
 Proof. vm_compute. repeat split. Qed.
 
 Example C10_nonvacuous_girth :
